@@ -23,6 +23,13 @@ def _actor():
     return w, w.by_thread.get(_thread.get_ident())
 
 
+class NestInfeasible(BaseException):
+    """A call nested on the actor's own thread would wait for a lock that only its
+    own outer call can release: this interleaving cannot be scheduled at all (a
+    lock restricts the schedules, it is not a result), so the nesting is given up
+    and the inner call is made after the outer one."""
+
+
 def _wait_until(obj, try_once, blocking=True, timeout=-1):
     if try_once():
         return True
@@ -31,6 +38,11 @@ def _wait_until(obj, try_once, blocking=True, timeout=-1):
     w, a = _actor()
     if a is None:
         return None  # caller falls back to the real primitive
+    if getattr(a, "in_nested", False) and (
+        getattr(obj, "_owner_actor", None) is a
+        or not [x for x in w.sched._runnable() if x is not a]
+    ):
+        raise NestInfeasible()
     if timeout is not None and timeout >= 0:
         # a timed wait inside the simulation: one scheduling point, then report the outcome
         w.sched.yield_point(a)
@@ -67,9 +79,11 @@ class Lock:
             r = self._l.acquire(blocking, timeout)
         if r:
             _held(+1)
+            self._owner_actor = _actor()[1]
         return r
 
     def release(self):
+        self._owner_actor = None
         self._l.release()
         _held(-1)
         _released(self)
